@@ -213,6 +213,23 @@ func main() {
 		})
 	}
 	r.Extra["character_tokens"] = fmt.Sprintf("%q up to %d characters", tokens, TL)
+	// valid names with one foreign character (white space of every kind, NUL, BOM, separators)
+	// put in front, behind, on both sides and at every inner position
+	affixes := []string{" ", "\n", "\t", "\r", "\r\n", "\u00a0", "\u2003", "\u2028", "\x00", "\ufeff", ",", ";", "\"", "'"}
+	var padded []string
+	for _, name := range []string{"a/a=a", "vendor.com/class=dev", "a0/b-1=c:2", "v_/c.d=0"} {
+		for _, af := range affixes {
+			padded = append(padded, af+name, name+af, af+name+af)
+			for i := 1; i < len(name); i++ {
+				padded = append(padded, name[:i]+af+name[i:])
+			}
+		}
+	}
+	r.ParallelL(int64(len(padded)), func(i int64, l *hx.Local) {
+		res := evalString(padded[i])
+		l.Record(res, func() any { return fmt.Sprintf("string %q -> %s", padded[i], res.Outcome) })
+	})
+	r.Extra["valid_names_with_one_foreign_character"] = len(padded)
 	parts := allUpTo(partAlphabet, K)
 	np := int64(len(parts))
 	r.ParallelL(np*np*np, func(i int64, l *hx.Local) {
